@@ -494,6 +494,13 @@ def ext_call(it, dotted, args, kw, n):
         except _re.error as e:
             raise RaiseEx('error', f're: {e}')
         return wrap_re(r)
+    if dotted in ('collections.deque', 'deque'):
+        items = it.iterate(args[0]) if args else []
+        if items is None:
+            raise Fail('deque over unknown iterable')
+        d = ListV(list(items))
+        d.is_deque = True
+        return d
     if dotted == 'zlib.crc32':
         if isinstance(args[0], K):
             import zlib
@@ -665,6 +672,24 @@ def val_method(it, v, name, args, kw, node):
             d.keyobj = dict(v.keyobj)
             return d
     if isinstance(v, ListV):
+        if name == 'popleft':
+            try:
+                return v.items.pop(0)
+            except IndexError:
+                raise RaiseEx('IndexError', 'pop from an empty deque')
+        if name == 'appendleft':
+            v.items.insert(0, args[0])
+            return K(None)
+        if name == 'extendleft':
+            items = it.iterate(args[0])
+            if items is None:
+                raise Fail('extendleft with unknown iterable')
+            for x in items:
+                v.items.insert(0, x)
+            return K(None)
+        if name == 'clear':
+            v.items.clear()
+            return K(None)
         if name == 'append':
             v.items.append(args[0])
             return K(None)
